@@ -35,10 +35,36 @@ def projection(obs, A, norm):
     return sorted(norm or [])
 
 
+def typed_driver(c, cases):
+    """the property's own observation: rustc decides field names and exact field types against assertions
+    synthesized from the reference mapping (complete destructuring pattern + one typed borrow per field)"""
+    from . import compiled as cp
+    gen = [cs for cs in cases if cs.get("ref")]
+    batch = gen[: (48 if c.tier == "quick" else 400)]
+    fails = []
+    total = {"struct_asserts": 0, "modules": 0}
+    for i in range(0, len(batch), 64):
+        ok, res, info = cp.compile_batch(batch[i:i + 64], with_struct_asserts=True, with_send_asserts=False)
+        total["struct_asserts"] += info["struct_asserts"]
+        total["modules"] += info["modules"]
+        for cs in ok:
+            r = res[id(cs)]
+            if r["structs"]:
+                fails.append(("typed-driver-rejected", "rustc rejects the reference struct assertion: " + r["structs"][0][:300], cs))
+            elif r["emitted"]:
+                fails.append(("emitted-code-does-not-compile", r["emitted"][0][:300], cs))
+        if info["rc"] != 0 and not any(any(v.values()) for v in res.values()):
+            fails.append(("batch-build-failed", info["raw_tail"][-300:], batch[i]))
+    c.cov["typed_driver"] = {"programs_compiled": total["modules"], "struct_assertions": total["struct_asserts"], "rejected": len(fails)}
+    from . import gencrate
+    gencrate.cleanup()
+    return fails
+
+
 def run(tier, seed):
     return st.run_structural(
         "C02", tier, seed, "ZeepVerif.Props.C02", "ZeepVerif/Audit/C02.lean",
-        [("gen", 250, 6000), ("gencollide", 60, 1500)], oracle, projection, CHECKER,
+        [("gen", 250, 6000), ("gencollide", 60, 1500)], oracle, projection, CHECKER, extra=typed_driver,
         note_assumptions=[
             "Inflector 0.11.4 to_pascal_case/to_snake_case transcribed in Lean for ASCII names (validated by the byte comparison on every run)",
             "the reference mapping Spec.Ref (DESIGN.md 2.3) is the statement's 'documented Rust counterpart'",
